@@ -11,6 +11,7 @@ VERIF = os.path.dirname(os.path.dirname(os.path.abspath(__file__)))
 REPO = os.environ.get("VERIF_REPO", "/repo")
 CACHE = os.path.join(VERIF, ".cache")
 LEAN = os.path.join(VERIF, "lean")
+TMP = ".tmp%d" % os.getpid()   # per-process scratch names: concurrent checks share the per-tree cache
 GOENV = dict(os.environ, GOFLAGS="-mod=mod", GOPROXY="off", GOSUMDB="off", GOTOOLCHAIN="local")
 
 def sh(cmd, cwd=None, env=None, timeout=None):
@@ -162,11 +163,11 @@ def run_traces(ctx, profile, seed, hists, steps):
     base = os.path.join(d, f"{profile}-{seed}-{hists}x{steps}")
     tr, mo = base + ".jsonl", base + ".out"
     if not os.path.exists(mo):
-        rc, out = sh([ctx.drive, "-seed", str(seed), "-hists", str(hists), "-steps", str(steps), "-profile", profile, "-j", "16", "-out", tr + ".tmp"], timeout=3600)
-        os.replace(tr + ".tmp", tr)
-        with open(tr) as fin, open(mo + ".tmp", "w") as fout:
+        rc, out = sh([ctx.drive, "-seed", str(seed), "-hists", str(hists), "-steps", str(steps), "-profile", profile, "-j", "16", "-out", tr + TMP], timeout=3600)
+        os.replace(tr + TMP, tr)
+        with open(tr) as fin, open(mo + TMP, "w") as fout:
             p = subprocess.run([ctx.model], stdin=fin, stdout=fout, stderr=subprocess.STDOUT)
-        os.replace(mo + ".tmp", mo)
+        os.replace(mo + TMP, mo)
     return tr, mo
 
 LINE = re.compile(r"^(MISMATCH|MONITOR|STEP|SUMMARY|DECODE-ERROR|PARSE-ERROR)\b(.*)$")
@@ -297,12 +298,12 @@ def main():
                 continue
             tr = os.path.join(cdir, os.path.basename(c) + "l"); mo = tr + ".out"
             if not os.path.exists(mo):
-                with open(tr + ".tmp", "w") as fout:
+                with open(tr + TMP, "w") as fout:
                     subprocess.run([ctx.drive, "-replay", c], stdout=fout, stderr=subprocess.DEVNULL, timeout=600)
-                os.replace(tr + ".tmp", tr)
-                with open(tr) as fin, open(mo + ".tmp", "w") as fout:
+                os.replace(tr + TMP, tr)
+                with open(tr) as fin, open(mo + TMP, "w") as fout:
                     subprocess.run([ctx.model], stdin=fin, stdout=fout, stderr=subprocess.STDOUT)
-                os.replace(mo + ".tmp", mo)
+                os.replace(mo + TMP, mo)
             runs.append({"corpus": os.path.relpath(c, VERIF)})
             outputs.append((tr, mo))
         for profile in fp["profiles"]:
@@ -314,9 +315,9 @@ def main():
             for tr, mo in list(outputs):
                 tw = tr + ".twin"
                 if not os.path.exists(tw):
-                    with open(tw + ".tmp", "w") as fout:
+                    with open(tw + TMP, "w") as fout:
                         subprocess.run([ctx.drive, "-twin", tr], stdout=fout, stderr=subprocess.DEVNULL, timeout=3600)
-                    os.replace(tw + ".tmp", tw)
+                    os.replace(tw + TMP, tw)
                 runs.append({"twin_of": os.path.basename(tr)})
                 outputs.append((tr, tw))
         for tr, mo in outputs:
